@@ -20,8 +20,10 @@ EXPLANATION = (
     "excepted one by one with the reason; (C16.4) the per-byte map that reverse_encoding applies to descending elements is "
     "read from MIR and evaluated on all 256 bytes: it is an involution, preserves the continuation bit, reverses the order "
     "of bytes whose data bits differ, and -- the clause that FAILS on this tree, known finding F14 -- orders a terminator "
-    "byte after the continuation byte with the same data bits.  TABLE, const eval, finite-domain evaluation, panic audit and "
-    "array-bounds dataflow over REACH.")
+    "byte after the continuation byte with the same data bits; (C16.6) ordered::encode_i32/i64 and decode_i32/i64 are piecewise "
+    "translations of their argument (class checked), tabulated exactly: encode is strictly increasing from signed to unsigned order, "
+    "decode inverts it on every value, and the signed Element impls go through them.  TABLE, const eval, finite-domain evaluation, "
+    "exact piecewise tabulation, panic audit and array-bounds dataflow over REACH.")
 NOT_DECIDED = ("order preservation, prefix contiguity and round-trip for values in general: relations between two inputs at width and "
                "escape boundaries (C16.4 decides one necessary per-byte condition of descending order by exhaustive evaluation)")
 ASSUMPTIONS = ["overflow Assert terminators are out of scope; the excepted slice sites are safe by the arguments in the exception table"]
@@ -33,6 +35,7 @@ def rules(ctx):
     c163(ctx)
     c164(ctx)
     c165(ctx)
+    c166(ctx)
 
 
 ENC = re.compile(r"::(append_to|extend|extend_with_key|extend_field_number|field_number|append|builder|build|finish|tuple_key|unit|bytes|string|"
@@ -341,3 +344,64 @@ def c165(ctx):
     dec = [k for k in users if re.search(r"decode|parse", k)]
     ctx.check(R, "tuple_key2", "width-users", bool(enc) and bool(dec), "the encoder (%d fns) and the decoder's canonical-width check (%d fns) share it" % (len(enc), len(dec)),
               "minimal_u64_len is no longer shared by encoder and decoder: %s" % sorted(users))
+
+
+def c166(ctx):
+    """The sign-offset mapping (tuple_key::ordered) is tabulated exactly as a piecewise translation x -> x + c (blue.pwc): encode must be
+    strictly increasing from the signed order of its argument to the unsigned order of its result (byte-wise comparison of the packed
+    big-endian digits is unsigned order), and decode must be its inverse on every value."""
+    from blue import pwc
+    R = "C16.6"
+    ctx.declare(R, "the sign-offset mapping of signed integers is an order isomorphism onto the unsigned integers and decode inverts it")
+    for w in ("32", "64"):
+        enc = ctx.fn(R, "tuple_key::ordered::encode_i" + w)
+        dec = ctx.fn(R, "tuple_key::ordered::decode_i" + w)
+        if not enc or not dec:
+            continue
+        try:
+            et = pwc.tabulate_translation(enc)
+            dt = pwc.tabulate_translation(dec)
+        except pwc.NotInClass as e:
+            ctx.check(R, enc, "tabulate", False, "", "encode_i%s / decode_i%s are no longer piecewise translations of their argument (%s): cannot tabulate them" % (w, w, e))
+            continue
+        uty, ity = "u" + w, "i" + w
+        bad = None
+        prev_hi = None
+        for lo, hi, c in et:
+            if not isinstance(c, int):
+                bad = "encode_i%s is %s on [%d, %d]" % (w, c, lo, hi)
+                break
+            a, b = pwc.wrap(lo + c, uty), pwc.wrap(hi + c, uty)
+            if b - a != hi - lo:
+                bad = "encode_i%s wraps inside [%d, %d]: the images of two values there are out of order" % (w, lo, hi)
+                break
+            if prev_hi is not None and not prev_hi < a:
+                bad = "encode_i%s maps %d to %d, not above the image %d of the value before it" % (w, lo, a, prev_hi)
+                break
+            prev_hi = b
+        ctx.check(R, enc, "order-isomorphism", bad is None, "encode_i%s is strictly increasing from signed to unsigned order on every value (%d piece(s) tabulated)" % (w, len(et)),
+                  bad or "")
+        if bad:
+            continue
+        inv = None
+        for lo, hi, c in et:
+            a, b = pwc.wrap(lo + c, uty), pwc.wrap(hi + c, uty)
+            for dlo, dhi, dc in dt:
+                x, y = max(a, dlo), min(b, dhi)
+                if x > y:
+                    continue
+                if not isinstance(dc, int) or pwc.wrap(x + dc, ity) != lo + (x - a):
+                    inv = "decode_i%s(encode_i%s(v)) != v for v = %d" % (w, w, lo + (x - a))
+        ctx.check(R, dec, "decode-inverts-encode", inv is None, "decode_i%s inverts encode_i%s on every value" % (w, w), inv or "")
+    # the Element impls go through the mapping
+    n = 0
+    for f in ctx.prog.fns.values():
+        if f.crate == "tuple_key" and f.impl_trait and f.impl_trait.endswith("tuple_key::Element") and f.impl_self in ("i32", "i64"):
+            want = {"append_to": "encode_i", "parse_from": "decode_i"}.get(f.name)
+            if not want:
+                continue
+            n += 1
+            calls = {callee_skey(t) or "" for _b, t in f.calls()}
+            ctx.check(R, f, "uses-mapping", ("tuple_key::ordered::" + want + f.impl_self[1:]) in calls, "%s::%s goes through ordered::%s%s" % (f.impl_self, f.name, want, f.impl_self[1:]),
+                      "%s::%s does not use ordered::%s%s" % (f.impl_self, f.name, want, f.impl_self[1:]))
+    ctx.floor(R, "signed Element append_to / parse_from", n, 4)
